@@ -213,8 +213,8 @@ func (w *mergingWalker) visitListItems(t *schema.List, lhs, rhs value.List) (err
 				mergedRHS.Insert(pe, struct{}{})
 				lChild, _ := observedLHS.Get(pe) // may be nil if the PE is duplicaated.
 				rChild, _ := observedRHS.Get(pe)
-				mergeOut, errs := w.mergeListItem(t, pe, lChild, rChild)
-				errs = append(errs, errs...)
+				mergeOut, itemErrs := w.mergeListItem(t, pe, lChild, rChild)
+				errs = append(errs, itemErrs...)
 				if mergeOut != nil {
 					out = append(out, *mergeOut)
 				}
@@ -239,8 +239,8 @@ func (w *mergingWalker) visitListItems(t *schema.List, lhs, rhs value.List) (err
 			if _, ok := observedRHS.Get(pe); !ok {
 				// take LHS item using At to make sure we get the right item (observed may not contain the right item).
 				lChild := lhs.AtUsing(w.allocator, lI)
-				mergeOut, errs := w.mergeListItem(t, pe, lChild, nil)
-				errs = append(errs, errs...)
+				mergeOut, itemErrs := w.mergeListItem(t, pe, lChild, nil)
+				errs = append(errs, itemErrs...)
 				if mergeOut != nil {
 					out = append(out, *mergeOut)
 				}
@@ -257,8 +257,8 @@ func (w *mergingWalker) visitListItems(t *schema.List, lhs, rhs value.List) (err
 			mergedRHS.Insert(pe, struct{}{})
 			lChild, _ := observedLHS.Get(pe) // may be nil if absent or duplicaated.
 			rChild, _ := observedRHS.Get(pe)
-			mergeOut, errs := w.mergeListItem(t, pe, lChild, rChild)
-			errs = append(errs, errs...)
+			mergeOut, itemErrs := w.mergeListItem(t, pe, lChild, rChild)
+			errs = append(errs, itemErrs...)
 			if mergeOut != nil {
 				out = append(out, *mergeOut)
 			}
